@@ -307,6 +307,21 @@ class Search:
         if obs != obs_f or succ != succ_f:
             viol.append(("I2", f"{describe(op)} after history {[describe(self.ops[h]) for h in hist]} returns {obs} / league {succ}; "
                                f"the same call on a fresh model and fresh ratings with the same values returns {obs_f} / {succ_f}"))
+        # I2 (ids): the same call on fresh objects that all carry ONE id and ONE name (ids are application data:
+        # deepcopy keeps them, applications assign them) must again give identical numbers
+        if op[0] in ("rate", "predict_win", "predict_draw", "predict_rank"):
+            mi, Li = self.fresh(vals, prefix="same")
+            for p in Li:
+                p.id = "0" * 32
+                p.name = "same"
+            try:
+                obs_i = self.apply(mi, Li, op)
+            except Exception as e:
+                obs_i = ["raised", type(e).__name__]
+            succ_i = [(fb(p.mu), fb(p.sigma)) for p in Li]
+            if obs != obs_i or succ != succ_i:
+                viol.append(("I2", f"{describe(op)} returns {obs} / league {succ} but {obs_i} / {succ_i} when every rating carries the same id and name "
+                                   f"(values identical): the numbers depend on rating ids"))
         if op[0] == "rate":
             _, mt, r, tau, ls, enc = op
             # I3: sigma bounds
@@ -478,7 +493,9 @@ def _search(key):
 def _expand(unit, ctx):
     """worker: expand a chunk of frontier histories of one search.  Returns an Acc whose .payload carries the
     successor digests."""
-    key, hists, init_snap = unit
+    key, hists, init_snap, invs = unit
+    key = tuple(key)
+    hists = [tuple(h) for h in hists]
     s = _search(key)
     acc = core.Acc()
     payload = []
@@ -489,6 +506,9 @@ def _expand(unit, ctx):
             if gchg:
                 acc.add("transitions_changing_module_globals")
             for inv, msg in viol:
+                if invs is not None and inv not in invs:
+                    acc.add("other_invariant_violations:" + inv)
+                    continue
                 acc.violation("E2", f"{inv}:{s.kind}:{s.ops[oi][0]}", msg,
                               {"search": list(key), "hist": list(hist), "op": oi, "inv": inv})
             payload.append((hist, oi, digest))
@@ -496,7 +516,7 @@ def _expand(unit, ctx):
     return acc
 
 
-def explore(searches, depth, ctx, chunk=8):
+def explore(searches, depth, ctx, chunk=8, invs=None):
     """Run all searches to `depth` (transitions are evaluated from every state at depth < `depth`).
     Returns dict with states/transitions/merges per search, merged violations Acc, sample traces."""
     stats = {}
@@ -519,7 +539,7 @@ def explore(searches, depth, ctx, chunk=8):
         for key in searches:
             fr = frontier[key]
             for i in range(0, len(fr), chunk):
-                units.append((key, fr[i:i + chunk], init[key]))
+                units.append((key, fr[i:i + chunk], init[key], invs))
         if not units:
             break
         results = _run_collect(units, ctx)
@@ -558,13 +578,14 @@ def _run_collect(units, ctx):
     out = [None] * len(units)
     errors = []
     if ctx.jobs <= 1 or len(units) <= 1:
+        core._worker_init()
         for i in order:
             idx, r, err = core._call((i, units[i]))
             out[idx] = r
             if err:
                 errors.append(err)
     else:
-        with multiprocessing.get_context("fork").Pool(min(ctx.jobs, len(units))) as pool:
+        with multiprocessing.get_context("fork").Pool(min(ctx.jobs, len(units)), initializer=core._worker_init) as pool:
             for idx, r, err in pool.imap_unordered(core._call, [(i, units[i]) for i in order], chunksize=1):
                 out[idx] = r
                 if err:
